@@ -41,8 +41,6 @@ def main(argv):
             sel.append(argv[i]); i += 1
     results = {}
     rf = SEEDED / "RESULTS.json"
-    if rf.exists():
-        results = json.loads(rf.read_text())
     for d in sorted(p for p in SEEDED.iterdir() if p.is_dir()):
         meta = json.loads((d / "meta.json").read_text())
         props = meta["breaks"] if isinstance(meta["breaks"], list) else [meta["breaks"]]
@@ -82,7 +80,17 @@ def main(argv):
             else:
                 sh(f"git -C /repo worktree remove --force {wt}")
                 shutil.rmtree(wt, ignore_errors=True)
-    rf.write_text(json.dumps(results, indent=1, sort_keys=True) + "\n")
+    # several instances may run side by side: merge under a lock, touching only our own entries
+    import fcntl
+    with open(SEEDED / ".results.lock", "w") as lk:
+        fcntl.flock(lk, fcntl.LOCK_EX)
+        allres = json.loads(rf.read_text()) if rf.exists() else {}
+        for k, v in results.items():
+            if isinstance(v, dict) and "error" not in v and isinstance(allres.get(k), dict) and "error" not in allres[k]:
+                allres[k].update(v)
+            else:
+                allres[k] = v
+        rf.write_text(json.dumps(allres, indent=1, sort_keys=True) + "\n")
 
 
 if __name__ == "__main__":
